@@ -70,7 +70,7 @@ theorem StringElement.rt (pw pr : Nat) : (StringElement.codec pw pr).RtAnywhere 
 
 theorem StringElement.count (pw pr : Nat) : (StringElement.codec pw pr).Count := by
   intro s
-  simp only [StringElement.codec, ustrT, wBytes_eq, wSeq_eq, wPad_eq]
+  exact wUStr_eq pw s
 
 /-! ## color.py -/
 
